@@ -187,6 +187,16 @@ PROPS = {
         "not_decided": ["interleavings of FileId::new across threads (atomicity of AtomicU64::fetch_add assumed; Kani has no threads)",
                         "concurrent parse/validate/introspect equivalence (schedules)"],
     },
+    "C32": {
+        "level": "proof",
+        "verus": ["smith_names"],
+        "explanation": "KERNEL ONLY: DocumentBuilder::type_name, from which every generated type definition gets its name. Verus proves on the extracted body that the returned name is not among the type names used so far "
+                       "(including those recorded from a parsed schema) and that it is recorded as used; on failure of the randomness source nothing is recorded.",
+        "assumptions": ["HashSet<String> behaves as a set of texts; limited_string is opaque; the candidate text `{base}{suffix}` is opaque (write! shim)",
+                        "the loop tries fewer than 2^64 candidates (explicit shim in front of `suffix += 1`; with termination it needs a pigeonhole argument over the finite set of used names: not proved)"],
+        "not_decided": ["the property as stated: for every input byte string the WHOLE generator returns a document that parses without syntax errors and validates; determinism; operations valid against a parsed schema",
+                        "termination of type_name's loop"],
+    },
     "C33": {
         "level": "proof",
         "verus": ["smith_response", "execution"],
